@@ -117,6 +117,40 @@ Definition to_go (lib : golib) (k : gkind) (v : sval) : outcome gval :=
   | KOther | KNamed _ => Throw
   end.
 
+(* ------------------------------------------------------------------ the reflected constructor *)
+(* runtime/reflect_class.go ReflectConstructor.Call + setFieldValue: `new T(a0, a1, ..)` stores the
+   i-th argument into the i-th public field of a fresh struct.  setFieldValue switches on the
+   field's Kind: String (AsString), Int / Int64 (AsInt), Float64 (AsFloat), Bool (AsBool); a field
+   of any other kind cannot be set (error) — and since a missing argument is stored as null, a
+   struct with such a public field cannot be constructed at all.  A missing argument therefore
+   gives the zero value ("" / 0 / 0.0 / false = the conversions of null); arguments beyond the
+   fields are ignored; the first failure is a catchable error. *)
+Definition ctor_kind_ok (k : gkind) : bool :=
+  match k with KString | KInt | KInt64 | KFloat64 | KBool => true | _ => false end.
+Definition set_field (lib : golib) (k : gkind) (v : sval) : outcome gval :=
+  if ctor_kind_ok k then to_go lib k v else Throw.
+Definition zero_of (k : gkind) : gval :=
+  match base_kind k with
+  | KString => GStr k "" | KBool => GBool k false
+  | KFloat32 | KFloat64 => GFlt k 0%float
+  | KOther | KNamed _ => GOth
+  | _ => GNum k 0
+  end.
+Fixpoint construct (lib : golib) (fields : list gkind) (args : list sval) : outcome (list gval) :=
+  match fields, args with
+  | [], _ => Ok []
+  | k :: fs, a :: r =>
+      match set_field lib k a with
+      | Ok g => match construct lib fs r with Ok gs => Ok (g :: gs) | o => o end
+      | _ => Throw
+      end
+  | k :: fs, [] =>                        (* missing argument: the slot holds null, which is stored too *)
+      match set_field lib k SNull with
+      | Ok g => match construct lib fs [] with Ok gs => Ok (g :: gs) | o => o end
+      | _ => Throw
+      end
+  end.
+
 (* ------------------------------------------------------------------ convertToScriptValue *)
 Definition signed_kind (k : gkind) : bool :=
   match base_kind k with KInt | KInt8 | KInt16 | KInt32 | KInt64 => true | _ => false end.
